@@ -1,9 +1,11 @@
 #!/bin/bash
 # usage: try_seeded.sh <patch.diff> <Cxx> [tier]   -- applies the patch to /repo, runs the check, reverts.
+# Holds /tmp/seed_pipeline.lock while /repo is modified (run_checks.sh and `vp check` requests take the same lock).
 set -u
+[ "${TRY_LOCKED:-}" = 1 ] || { export TRY_LOCKED=1; exec flock /tmp/seed_pipeline.lock "$0" "$@"; }
 P=$1; ID=$2; TIER=${3:-quick}
 cd /repo && git diff --quiet || { echo "/repo not clean"; exit 2; }
 git apply $P || { echo "patch does not apply"; exit 3; }
 cd /verif && ./check $ID --tier $TIER; rc=$?
-cd /repo && git checkout -- . 
+cd /repo && git checkout -- .
 echo "check exit=$rc"
